@@ -333,5 +333,16 @@ CHECKS["C11"].update(text=CHECKS["C11"]["text"].replace("The parser round trip f
     "Whole files: read_encode_multi_daqmx (C01Layouts) — reading a multi-segment file with DAQmx segments returns exactly the per-scaler values the spec assigns; "
     "daqmx_tables_are_reference ties the scaler type codes to the reference table."))
 
+CHECKS["C15"].update(
+    text="read_endian_irrelevant (whole files): for every well-formed file mixing contiguous, interleaved and DAQmx segments (class MultiStdD) and any two assignments of byte "
+         "orders to its segments, both encodings have the same length, both read, and the contents (objects, properties, types, values, per-scaler raw values) are "
+         "identical; denote_endian_irrelevant: the meaning does not depend on the assignment (standard segments: only the flag changes; DAQmx rows are re-encoded field by "
+         "field, possible exactly when scaler fields of a buffer are identical or disjoint — FieldsCompat, shown necessary by no_reencoding_of_overlapping_fields); lazy "
+         "windows, slices and index reads likewise (lazy_window_endian_irrelevant, standard contiguous class). Codec level: byte_order_irrelevant_* for integers, strings, "
+         "values of every fixed-width type (complex = two atoms, timestamps reversed as a whole), properties, standard and DAQmx indexes, lead-ins (ToC always little-endian), "
+         "contiguous / interleaved data and metadata blocks. The same content encoded all-little, all-big and mixed by the Lean spec reads identically through the real "
+         "reader and the model on every generated file.",
+    technique="Lean 4 proof (whole-file byte-order independence on top of the C01 whole-file theorems; codec round trips parametric in the byte order) + spec encoder + pairwise oracle")
+
 NOTES = ("Properties move from not_applicable to checks as their model, correspondence and theorems are built; a check is claimed at `proof` only when its "
          "headline theorems are registered in lean/obligations.json. See DESIGN.md.")
